@@ -112,7 +112,9 @@ func (sc *c09Scan) exprEvents(n ast.Node, fn string, held map[string]bool, sect 
 				switch name {
 				case "Signal", "Broadcast", "Wait", "Push", "Pop", "Size":
 					sc.emit("call:"+name, fn, held, sect, guard)
-				case "At", "Lock", "Unlock", "Sleep":
+				case "At":
+					return false // instrumentation: its arguments are not accesses of the code
+				case "Lock", "Unlock", "Sleep":
 				default:
 					if fd, ok := sc.funcs[name]; ok && depth < 3 && fd.Body != nil {
 						// same-package helper: follow it with the locks held here
